@@ -1,0 +1,23 @@
+//go:build verif
+
+package object
+
+import "sort"
+
+// Verification hooks (build tag "verif"). They only observe.
+
+// VerifModuleAttrNames returns the sorted names of the attributes a module
+// currently holds (builtins and code globals; "__name__" is implicit).
+func VerifModuleAttrNames(m *Module) []string {
+	names := make([]string, 0, len(m.builtins)+len(m.globalsIndex))
+	for name := range m.builtins {
+		names = append(names, name)
+	}
+	for name := range m.globalsIndex {
+		if _, dup := m.builtins[name]; !dup {
+			names = append(names, name)
+		}
+	}
+	sort.Strings(names)
+	return names
+}
